@@ -45,7 +45,7 @@ FUNCTIONS = [
 BOUNDS = ("h_satisfies: every kind over the full feature universe (all bits free; versions 3 and 2, thorough also 1), every registered engine x every "
           "operation mode x every requirement value (optimality / anytime guarantee, plan kind, compilation kind, and plan kind x optimality for repairers); "
           "h_select: per (mode, requirement) the free bits are one representative feature per distinct support column of the candidate engines, at most "
-          "6 (quick) / 9 (thorough) bits, mixed columns first, then a feature no candidate supports and one every candidate supports; two backgrounds "
+          "5 (quick) / 9 (thorough) bits, mixed columns first, then a feature no candidate supports and one every candidate supports; two backgrounds "
           "(other features absent / five commonly supported ones and the deprecated ones present); preference list: default, reversed, candidates rotated, "
           "first candidate removed; version 3 (thorough: 2 and 1 too); registries: built-in offline (18 engines) and extended with 14 stub engines (41 engines)")
 OUTSIDE = ("h_select on kinds that differ from the explored ones inside a support column's equivalence class or beyond the bit cap "
@@ -92,7 +92,7 @@ def h_satisfies(ctx, registry, modes, version):
             ctx.witness("rejected-statically")
             continue
         sup = E.supports(kindlib.clone(K))
-        ctx.require(Iff(real, And(sup)), "satisfies:differs-from-supports",
+        kindlib.require(ctx, lambda: Iff(real, And(sup)), "satisfies:differs-from-supports",
                     f"_engine_satisfies_conditions({name}, {mode}, {req}) differs from {name}.supports(K) for some kind K")
         ctx.witness("kind-dependent")
 
@@ -150,7 +150,12 @@ def _pref_variant(ctx, f, mode, rq):
     return pref
 
 
-def h_select(ctx, registry, modes, version, cap):
+ERROR_TABLE_ASSERT = "issubclass(EngineClass, OneshotPlannerMixin)"
+
+
+def h_select(ctx, registry, modes, version, cap, req_part=None):
+    import traceback
+
     import unified_planning as up
     from vf import kindlib
     from vf.logic import And, Not, Or
@@ -158,7 +163,10 @@ def h_select(ctx, registry, modes, version, cap):
     env = ctx.fresh_env()
     f = kindlib.setup_factory(ctx, env, registry)
     mode = ctx.pick("mode", modes)
-    req = ctx.pick("req", _reqs(mode))
+    reqs = _reqs(mode)
+    if req_part is not None:
+        reqs = reqs[req_part[0]::req_part[1]]
+    req = ctx.pick("req", reqs)
     rq = kindlib.req_enums(req)
     pref = _pref_variant(ctx, f, mode, rq)
     f.preference_list = pref  # the real setter
@@ -172,10 +180,17 @@ def h_select(ctx, registry, modes, version, cap):
         E, _instantiated = _call(f, mode, K, rq)
     except up.exceptions.UPNoSuitableEngineAvailableException:
         E = None
+    except AssertionError as e:
+        last = traceback.extract_tb(e.__traceback__)[-1]
+        if last.name == "_get_engine_class" and ERROR_TABLE_ASSERT in (last.line or ""):
+            # the factory was composing its "no suitable engine" report and tripped over its own assertion
+            ctx.fail(f"select:assertion-in-error-report:{mode}",
+                     f"{mode} {req}: AssertionError (`{last.line}`) instead of UPNoSuitableEngineAvailableException while reporting that no engine qualifies")
+        raise
     # oracle: own loop over the registry (restricted to the preference list: engines outside it are never picked automatically)
     qual = [(n, f.engine(n).supports(kindlib.clone(K0))) for n in pref if kindlib.static_ok(f.engine(n), mode, rq)]
     if E is None:
-        ctx.require(Not(Or(*[q for _n, q in qual])) if qual else True, "select:refuses-although-an-engine-qualifies",
+        kindlib.require(ctx, lambda: Not(Or(*[q for _n, q in qual])) if qual else True, "select:refuses-although-an-engine-qualifies",
                     f"{mode} {req}: UPNoSuitableEngineAvailableException although an engine of the preference list qualifies")
         ctx.witness("no-suitable")
         return
@@ -183,7 +198,8 @@ def h_select(ctx, registry, modes, version, cap):
     ctx.check(bool(names), "select:engine-outside-preference-list", f"{mode} {req}: returned {E.__name__}, which is not an engine of the preference list")
     ctx.check(kindlib.static_ok(E, mode, rq), "select:requirement-not-honoured",
               f"{mode} {req}: returned {names} which does not implement the mode or a requested requirement")
-    ctx.require(And(E.supports(kindlib.clone(K0))), "select:unsupported-kind", f"{mode} {req}: returned {names} does not support the problem kind")
+    sup = E.supports(kindlib.clone(K0))
+    kindlib.require(ctx, lambda: And(sup), "select:unsupported-kind", f"{mode} {req}: returned {names} does not support the problem kind")
     ctx.witness("selected")
 
 
@@ -208,7 +224,7 @@ def shards(tier, seed):
             out.append(dict(name=f"satisfies-{reg}-{gname}-v{v}", fn="h_satisfies", kwargs=dict(registry=reg, modes=modes, version=v),
                             budget=150 if q else 900, per_path=60))
     # --- selection through the public API, sub-universe
-    cap = 6 if q else 9
+    cap = 5 if q else 9
     sel = [("builtin", "compiler", ["compiler"]), ("builtin", "validator-simulator", ["plan_validator", "sequential_simulator"]),
            ("builtin", "modes-without-engine", ["oneshot_planner", "anytime_planner", "portfolio_selector", "replanner", "plan_repairer", "action_selector"]),
            ("ext", "compiler", ["compiler"]), ("ext", "oneshot", ["oneshot_planner"]), ("ext", "anytime-portfolio", ["anytime_planner", "portfolio_selector"]),
@@ -216,15 +232,17 @@ def shards(tier, seed):
            ("ext", "validator-simulator-selector", ["plan_validator", "sequential_simulator", "action_selector"])]
     for reg, nm, modes in sel:
         for v in ((3,) if q else (3, 2, 1)):
-            out.append(dict(name=f"select-{reg}-{nm}-v{v}", fn="h_select", kwargs=dict(registry=reg, modes=modes, version=v, cap=cap),
-                            budget=200 if q else 900, per_path=60))
+            parts = [None] if nm != "compiler" else [[0, 2], [1, 2]]
+            for part in parts:
+                out.append(dict(name=f"select-{reg}-{nm}-v{v}" + ("" if part is None else f"-part{part[0]}"), fn="h_select",
+                                kwargs=dict(registry=reg, modes=modes, version=v, cap=cap, req_part=part), budget=200 if q else 900, per_path=60))
     # --- pipelines (same harness as C09 part B)
     firsts = ["CONDITIONAL_EFFECTS_REMOVING", "USERTYPE_FLUENTS_REMOVING"] if q else ["CONDITIONAL_EFFECTS_REMOVING", "USERTYPE_FLUENTS_REMOVING", "GROUNDING",
                                                                                   "NEGATIVE_CONDITIONS_REMOVING", "CONFORMANT_TO_CLASSICAL"]
     for first in firsts:
         out.append(dict(name=f"pipeline-builtin-{first}", fn="h_pipeline",
-                        kwargs=dict(registry="builtin", version=3, max_len=2 if q else 3, cap=4, first=first), budget=150 if q else 900, per_path=60))
-    out.append(dict(name="pipeline-ext-GROUNDING", fn="h_pipeline", kwargs=dict(registry="ext", version=3, max_len=2, cap=4, first="GROUNDING"),
+                        kwargs=dict(registry="builtin", version=3, max_len=2 if q else 3, cap=3 if q else 4, first=first), budget=150 if q else 900, per_path=60))
+    out.append(dict(name="pipeline-ext-GROUNDING", fn="h_pipeline", kwargs=dict(registry="ext", version=3, max_len=2, cap=3 if q else 4, first="GROUNDING"),
                     budget=150 if q else 900, per_path=60))
     return out
 
